@@ -77,3 +77,12 @@ package util
 //@   props C18
 //@   trusted
 //@   pure
+
+//@ fn SplitCommand(cmdStr) (cmd, args)
+//@   props C13
+//@   trusted
+//@   modifies heap(alloc)
+//@ fn SplitCommandWithParse(cmdStr) (cmd, args)
+//@   props C11
+//@   trusted
+//@   modifies heap(alloc), ghost eff.exec
